@@ -225,28 +225,41 @@ structure EvalRes where
   err : Option Err
   tag : Rat → Tag       -- provenance of the entry whose abscissa is x (meaningful if err = none)
 
+/-- `xEvaluateRegion` : the entries outside `[rangeMin, rangeMax]` -/
+def outPts (s : State) (xs : List Rat) : List Rat :=
+  xs.filter (fun x => !inside (rangeMin s) (rangeMax s) x)
+/-- `x[xLower]` in `_evaluateOutOfBounds` -/
+def lowPts (s : State) (xs : List Rat) : List Rat :=
+  (outPts s xs).filter (fun x => decide (x ≤ rangeMin s))
+/-- `x[xUpper]` in `_evaluateOutOfBounds` -/
+def upPts (s : State) (xs : List Rat) : List Rat :=
+  (outPts s xs).filter (fun x => decide (rangeMax s ≤ x))
+
+/-- entry written by `evaluate` when the mixed-mode branch of `_evaluateOutOfBounds` ran; `e1` is the
+table version current when the upper block ran -/
+def tagWith (s : State) (e1 : Nat) (x : Rat) : Tag :=
+  if inside (rangeMin s) (rangeMax s) x = true then .spline s.epoch x
+  else oobTag s.lo s.hi (rangeMin s) (rangeMax s) s.epoch e1 x
+
 /-- `evaluate(x, bUseInterpolatedValues)` on the flattened input -/
 def evalRun (s : State) (useInterp : Bool) (xs : List Rat) : EvalRes :=
   if useInterp = false ∨ s.hasTable = false then
     ⟨(schedule s xs).1, (schedule s xs).2, Tag.direct⟩
-  else if (xs.filter (fun x => !inside (rangeMin s) (rangeMax s) x)).isEmpty = true then
+  else if (outPts s xs).isEmpty = true then
     ⟨s, none, fun x => .spline s.epoch x⟩
   else if s.lo = .error ∧ s.hi = .error then
     ⟨s, some .valueError, fun _ => .uninit⟩
   else if s.lo = .none ∧ s.hi = .none then
-    ⟨(schedule s (xs.filter (fun x => !inside (rangeMin s) (rangeMax s) x))).1,
-     (schedule s (xs.filter (fun x => !inside (rangeMin s) (rangeMax s) x))).2,
+    ⟨(schedule s (outPts s xs)).1, (schedule s (outPts s xs)).2,
      fun x => if inside (rangeMin s) (rangeMax s) x = true then .spline s.epoch x else .direct x⟩
   else
-    let out := xs.filter (fun x => !inside (rangeMin s) (rangeMax s) x)
-    let r1 := sideLower s (out.filter (fun x => decide (x ≤ rangeMin s)))
-    match r1.2 with
-    | some e => ⟨r1.1, some e, fun _ => .uninit⟩
+    -- lower block first (may schedule points and even trigger an adaptive update), then upper block
+    match (sideLower s (lowPts s xs)).2 with
+    | some e => ⟨(sideLower s (lowPts s xs)).1, some e, fun _ => .uninit⟩
     | none =>
-      let r2 := sideUpper r1.1 (out.filter (fun x => decide (rangeMax s ≤ x)))
-      ⟨r2.1, r2.2, fun x =>
-        if inside (rangeMin s) (rangeMax s) x = true then .spline s.epoch x
-        else oobTag s.lo s.hi (rangeMin s) (rangeMax s) s.epoch r1.1.epoch x⟩
+      ⟨(sideUpper (sideLower s (lowPts s xs)).1 (upPts s xs)).1,
+       (sideUpper (sideLower s (lowPts s xs)).1 (upPts s xs)).2,
+       tagWith s (sideLower s (lowPts s xs)).1.epoch⟩
 
 /-! ### derivative -/
 
@@ -274,32 +287,43 @@ def derivDirect (s : State) (order : Nat) (xd : List (Rat × Rat)) : State × Ou
       | (s2, some e) => (s2, .error e)
       | (s2, none) => (s2, .dtags (xd.map (fun e => .fd ((stencilPos order e.1 e.2).map .direct))))
 
-/-- `derivative(x, order, bUseInterpolation)` -/
+/-- entry is inside the table range (`canInterpolateCondition` of `derivative`) -/
+def insideE (s : State) (e : Rat × Rat) : Bool := inside (rangeMin s) (rangeMax s) e.1
+
+/-- `_interpolatedDerivatives[order - 1]` : order 1 → 1st, order 2 → 2nd, order 0 → index -1 = 2nd -/
+def derivIdx (order : Nat) : Nat := if order = 0 then 2 else order
+
+/-- `xEvaluateRegion` of `derivative` (with the per-entry dx) -/
+def derivOut (s : State) (xd : List (Rat × Rat)) : List (Rat × Rat) := xd.filter (fun e => !insideE s e)
+
+/-- `derivative(x, order, bUseInterpolation)`.  Outside entries go through
+`helpers.derivative(self.evaluate, xOut, n=order)`, which calls `evaluate(pos)` TWICE (n ≥ 1; the
+returned values are those of the second call) or is `evaluate(xOut)` itself (n = 0). -/
 def derivRun (s : State) (useInterp : Bool) (order : Nat) (xd : List (Rat × Rat)) : State × Out :=
   if useInterp = false ∨ s.hasTable = false ∨ 2 < order then derivDirect s order xd
+  else if (derivOut s xd).isEmpty = true then
+    (s, .dtags (xd.map (fun e => .splineDeriv s.epoch (derivIdx order) e.1)))
+  else if order = 0 then
+    match (evalRun s true ((derivOut s xd).map (·.1))).err with
+    | some e => ((evalRun s true ((derivOut s xd).map (·.1))).st, .error e)
+    | none => ((evalRun s true ((derivOut s xd).map (·.1))).st, .dtags (xd.map (fun e =>
+        if insideE s e = true then .splineDeriv s.epoch (derivIdx order) e.1
+        else .fd [(evalRun s true ((derivOut s xd).map (·.1))).tag e.1])))
   else
-    let ins := fun (e : Rat × Rat) => inside (rangeMin s) (rangeMax s) e.1
-    let d := if order = 0 then 2 else order     -- `_interpolatedDerivatives[order - 1]`, index -1 = last
-    let out := xd.filter (fun e => !ins e)
-    if out.isEmpty = true then (s, .dtags (xd.map (fun e => .splineDeriv s.epoch d e.1)))
-    else if order = 0 then
-      -- helpers.derivative(self.evaluate, xOut, n=0) = self.evaluate(xOut)
-      let r := evalRun s true (out.map (·.1))
-      match r.err with
-      | some e => (r.st, .error e)
-      | none => (r.st, .dtags (xd.map (fun e =>
-          if ins e = true then .splineDeriv s.epoch d e.1 else .fd [r.tag e.1])))
-    else
-      let r1 := evalRun s true (posArray order out)
-      match r1.err with
-      | some e => (r1.st, .error e)
-      | none =>
-        let r2 := evalRun r1.st true (posArray order out)
-        match r2.err with
-        | some e => (r2.st, .error e)
-        | none => (r2.st, .dtags (xd.map (fun e =>
-            if ins e = true then .splineDeriv s.epoch d e.1
-            else .fd ((stencilPos order e.1 e.2).map r2.tag))))
+    match (evalRun s true (posArray order (derivOut s xd))).err with
+    | some e => ((evalRun s true (posArray order (derivOut s xd))).st, .error e)
+    | none =>
+      match (evalRun (evalRun s true (posArray order (derivOut s xd))).st true
+              (posArray order (derivOut s xd))).err with
+      | some e => ((evalRun (evalRun s true (posArray order (derivOut s xd))).st true
+                      (posArray order (derivOut s xd))).st, .error e)
+      | none => ((evalRun (evalRun s true (posArray order (derivOut s xd))).st true
+                      (posArray order (derivOut s xd))).st,
+                 .dtags (xd.map (fun e =>
+                    if insideE s e = true then .splineDeriv s.epoch (derivIdx order) e.1
+                    else .fd ((stencilPos order e.1 e.2).map
+                      (evalRun (evalRun s true (posArray order (derivOut s xd))).st true
+                        (posArray order (derivOut s xd))).tag))))
 
 /-! ### the step function -/
 
